@@ -221,7 +221,15 @@ pub fn check_result(which: Which, r: &FcResult, entrypoints: &[String], unused: 
             let norm = |s: &str| s.replace("|undefined", "");
             // parameter-property types of TS-private members become `any`;
             // interface/type/enum texts may lose nothing
-            if norm(ov) != norm(v) {
+            if k.ends_with("/accepts-undefined") {
+              if ov == "yes" && v == "no" {
+                run.violate(
+                  "parameter-no-longer-accepts-undefined",
+                  format!("{u}: `{k}`: the original parameter is optional or has a default value, the emitted one neither is optional nor has `undefined` in its type"),
+                  case(json!({"module": u, "emitted": text})),
+                );
+              }
+            } else if norm(ov) != norm(v) {
               run.violate(
                 format!("annotation-not-carried-over:{}", k.rsplit('/').next().unwrap_or("").trim_end_matches(char::is_numeric)),
                 format!("{u}: `{k}` is written `{ov}` in the original and `{v}` in the emitted module"),
